@@ -10,6 +10,8 @@ import WtVerif.Generated.Consts
 
 abbrev Bytes := List UInt8
 
+deriving instance DecidableEq for Except
+
 namespace Varint
 
 /-- `VarInt::MAX` + 1 -/
